@@ -119,13 +119,39 @@ def cancel_cases(tier):
 
     kinds = CANCEL_KINDS if tier == "thorough" else CANCEL_KINDS[:2] + ["direct-h1"]
     out = []
+    from ..topo import is_h2
+
     for kind in kinds:
-        for shape in ("get", "post2"):
-            for runtime in (None, "trio"):
-                _, points = c05.base_counts(kind, "sibling-first", shape, runtime)
-                for k in points:
-                    for style in (("scope",) if runtime == "trio" else ("task", "scope")):
-                        out.append({"kind": kind, "context": "sibling-first", "shape": shape, "runtime": runtime, "cancel": {"style": style, "at": k}})
+        # HTTP/2: also with a server that sends PINGs along with the responses, so that the client has something to write (the ACK) right after
+        # a read that may have carried the sibling's frames
+        h2s = [None] + ([{"script": [{"when": {"event": ev, "n": n}, "do": [{"ping": True}]} for ev, n in evs]} for evs in
+                         ((("headers", 1), ("data", 0)), (("request_complete", 1), ("data", 1), ("data", 3)))] if is_h2(kind) else [])
+        for h2 in h2s:
+          # (with PINGs: also under three other schedules, so that the victim's reads are the ones that carry the sibling's frames)
+          for choices in ([[]] if h2 is None else [[], [1] * 60, [2, 0, 1] * 25, [3, 1, 0, 2] * 20]):
+            for shape in ("get", "post2"):
+                for runtime in (None, "trio"):
+                    base = {"kind": kind, "context": "sibling-first", "shape": shape, "runtime": runtime}
+                    if choices:
+                        base["choices"] = choices
+                    if h2 is not None:
+                        base["h2"] = h2
+                        base["dsegs"] = [330, 700]  # server bytes arrive in pieces: one response is read partly by its owner, partly by others
+                    run, world, callers = c05.run_case(dict(base), record_sites=True)
+                    sites = callers[0].sites
+                    ks = []
+                    i = 0
+                    while i < len(sites):  # a run of suspensions at one source line (the ~100 semaphore checkpoints) is represented by three
+                        j = i
+                        while j + 1 < len(sites) and sites[j + 1] == sites[i]:
+                            j += 1
+                        ks += sorted({i + 1, min(i + 1, j) + 1, j + 1})
+                        i = j + 1
+                    for k in ks:
+                        for style in (("scope",) if runtime == "trio" else ("task", "scope")):
+                            if tier == "quick" and h2 is not None and style == "task":
+                                continue
+                            out.append(dict(base, cancel={"style": style, "at": k}))
     return out
 
 
@@ -135,6 +161,7 @@ def execute_cancel(case) -> Outcome:
 
     run, world, callers = c05.run_case(case)
     c0 = callers[0]
+    plans = c05.plans_for(case)
     trigger, phase = c05.classify_trigger(case, world, callers)
     base = dict(conn=case["kind"], trigger=trigger, site=phase,
                 in_shield=bool(c0.in_shield_at_delivery if c0.delivery_site is not None else c0.in_shield_at_cancel), own_write_parked=own_write_parked(c0))
@@ -150,6 +177,11 @@ def execute_cancel(case) -> Outcome:
                 xt = [v for n, v in o["headers"] if n.lower() == b"x-tok"]
                 if xt != [tok.encode()]:
                     vio.append(V(P, "wrong-response", f"{what}: caller {c.id} asked for {tok} and got status {o['status']} x-tok {xt}", **base))
+                elif not o.get("partial") and tok in plans:
+                    exp = response_body(norm_plan(plans[tok]), tok, c.program[i]["spec"]["method"].encode())
+                    if o["body"] != exp:
+                        vio.append(V(P, "wrong-body", f"{what}: caller {c.id} got {len(o['body'])} bytes for {tok}, the server sent {len(exp)} for it "
+                                     f"(got {o['body'][:24]!r}..., sent {exp[:24]!r}...): bytes of its own response are missing", **base))
     for i, status, xt in run.result.get("probe_wrong", []):
         vio.append(V(P, "wrong-response", f"{what}: a later request for probe{i} on the same pool got status {status} x-tok {xt} - the answer to another request", **base))
     for p in world.pipes:
